@@ -12,7 +12,7 @@
 From Martian Require Import Lib.Bytes Lib.Utf8 K.ParseNum K.Unquote.
 Local Open Scope N_scope.
 
-(* const hex = "0123456789abcdef" *)
+(* the hex digit table 0123456789abcdef *)
 Definition hexd (n : N) : byte := n2b (if n <? 10 then 48 + n else 87 + n).
 
 Definition c_u : byte := n2b 117.
@@ -28,7 +28,7 @@ Definition esc_byte (b : byte) : bytes :=
   else if n =? 9 then [c_backslash; n2b 116]
   else [c_backslash; c_u; c_zero; c_zero; hexd (n / 16); hexd (n mod 16)].
 
-(* b >= ' ' && b != '"' && b != '\\' *)
+(* b >= space, b is not the double quote, b is not the backslash *)
 Definition plain_ascii (b : byte) : bool :=
   let n := b2n b in (32 <=? n) && negb (n =? 34) && negb (n =? 92).
 
